@@ -3,6 +3,7 @@ import fcntl
 import hashlib
 import json
 import os
+import re
 import shutil
 import subprocess
 import sys
@@ -28,19 +29,33 @@ CONFIGS = {
     "broker-stat": ["-p", "aldrin-broker", "--lib", "--features", "statistics"],
     "broker-intro": ["-p", "aldrin-broker", "--lib", "--features", "introspection"],
     "client-none": ["-p", "aldrin", "--lib"],
+    "bus-none": ["-p", "aldrin", "-p", "aldrin-broker", "--lib"],
     # narrow configurations used by the self-test (one mutated scratch copy per run)
     "broker-all": ["-p", "aldrin-broker", "--lib", "--all-features"],
     "core-all": ["-p", "aldrin-core", "--lib", "--all-features"],
     "client-all": ["-p", "aldrin", "-p", "aldrin-broker", "--lib", "--all-features"],
 }
 
-NARROW = {"C02": "broker-all", "C03": "broker-all", "C04": "broker-all", "C05": "broker-all", "C09": "client-all", "C10": "broker-all", "C11": "client-all",
+NARROW = {"C02": "broker-all", "C03": "broker-all", "C04": "client-all", "C05": "broker-all", "C09": "client-all", "C10": "broker-all", "C11": "client-all",
           "C01": "core-all", "C07": "core-all", "C08": "core-all", "C13": "core-all", "C20": "core-all", "C06": "client-all", "C12": "client-all"}
+
+
+OVERRIDE = os.environ.get("VERIF_CONFIG") or None
+
+# thorough tier: feature-reduced builds analysed in addition to the all-features workspace build
+_BROKER_MATRIX = ["broker-none", "broker-stat", "broker-intro"]
+MATRIX = {"C02": _BROKER_MATRIX, "C03": _BROKER_MATRIX, "C04": _BROKER_MATRIX, "C05": _BROKER_MATRIX, "C10": _BROKER_MATRIX,
+          "C11": ["bus-none"], "C12": ["bus-none"], "C06": ["bus-none"]}
+
+# closed-world witnesses (witnesses/src/lib.rs) each property's table rules rely on
+WITNESSES = {"C01": ["W1", "W3a", "W3b"], "C07": ["W1", "W3a"], "C13": ["W1"], "C08": ["W2", "W4a", "W4b"], "C11": ["W5"], "C09": ["W5"]}
 
 
 def config_for(prop):
     """the self-test analyses one mutated scratch copy per run and only needs the crates the
     property's rules read; the registered checks always use the whole-workspace extraction"""
+    if OVERRIDE:
+        return OVERRIDE
     if os.environ.get("VERIF_SELFTEST") and prop in NARROW:
         return NARROW[prop]
     return "ws"
@@ -87,14 +102,14 @@ def build_driver():
     subprocess.check_call(["cargo", "build", "--release", "--offline", "-q"], cwd=os.path.join(VERIF, "driver"), env=env)
 
 
-def _prune_cache(keep):
-    """keep the facts of at most 3 trees"""
+def _prune_cache(keep, prefix):
+    """keep the facts of at most 3 trees (self-test scratch trees are kept apart from the real ones)"""
     if not os.path.isdir(CACHE):
         return
     ents = []
     for d in os.listdir(CACHE):
         p = os.path.join(CACHE, d)
-        if d.startswith("tree-") and os.path.isdir(p) and d != keep:
+        if d.startswith(prefix) and os.path.isdir(p) and d != keep:
             ents.append((os.path.getmtime(p), p))
     ents.sort()
     while len(ents) > 2:
@@ -108,7 +123,8 @@ def ensure_facts(config="ws", repo=None, log=None):
     repo = repo or REPO
     os.makedirs(CACHE, exist_ok=True)
     th = tree_hash(repo)
-    tdir = os.path.join(CACHE, "tree-" + th)
+    prefix = "stree-" if os.environ.get("VERIF_SELFTEST") else "tree-"
+    tdir = os.path.join(CACHE, prefix + th)
     fdir = os.path.join(tdir, "facts-" + config)
     stamp = os.path.join(fdir, "COMPLETE")
     lock_path = os.path.join(CACHE, "lock")
@@ -118,7 +134,7 @@ def ensure_facts(config="ws", repo=None, log=None):
             os.utime(tdir, None)
             return fdir
         build_driver()
-        _prune_cache("tree-" + th)
+        _prune_cache(prefix + th, prefix)
         if os.path.isdir(fdir):
             shutil.rmtree(fdir)
         os.makedirs(fdir)
@@ -179,6 +195,8 @@ class Report:
         self.trusted = []
         self.assumptions = []
         self.exhaustive = {}
+        self.matrix = None      # name of the extra cfg being analysed in the thorough tier (None = base run)
+        self.matrix_runs = []
 
     def ok(self, rule, instance, detail=None, nontrivial=True, sample=True):
         """an obligation that was discharged"""
@@ -198,6 +216,10 @@ class Report:
         r = self.per_rule.setdefault(rule, {"obligations": 0, "discharged": 0})
         r["obligations"] += 1
         key = "%s:%s:%s" % (rule, where_def, instance)
+        if any(v["key"] == key for v in self.violations):
+            return  # same construct already reported (base configuration)
+        if self.matrix:
+            msg = "[cfg %s] %s" % (self.matrix, msg)
         self.violations.append({"key": key, "rule": rule, "def": where_def, "instance": instance, "msg": msg, "line": line, "extra": extra})
 
     def check(self, cond, rule, where_def, instance, msg, line=None, detail=None, extra=None):
@@ -209,6 +231,10 @@ class Report:
 
     def floor(self, rule, what, count, minimum):
         """fail closed when fewer instances were found than confirmed by hand"""
+        if self.matrix:
+            # the floor was enforced on the all-features run; a feature-reduced build has fewer sites
+            self.analysed["%s:%s@%s" % (rule, what, self.matrix)] = count
+            return
         self.analysed["%s:%s" % (rule, what)] = count
         if count < minimum:
             self.fail(rule, "<floor>", what, "found %d instances of %s, expected at least %d (rule would pass vacuously)" % (count, what, minimum))
@@ -217,6 +243,37 @@ class Report:
 
     def note(self, s):
         self.notes.append(s)
+
+
+def run_witnesses(rep):
+    """compile_fail doctests with compiling twins, built against the analysed tree (nightly: error codes are checked)"""
+    want = WITNESSES.get(rep.prop)
+    if not want:
+        return
+    repo = os.environ.get("VERIF_REPO", "/repo")
+    wdir = os.path.join(CACHE, "witnesses")
+    os.makedirs(os.path.join(wdir, "src"), exist_ok=True)
+    os.makedirs(os.path.join(wdir, ".cargo"), exist_ok=True)
+    src = os.path.join(VERIF, "witnesses")
+    toml = open(os.path.join(src, "Cargo.toml")).read().replace("../../repo", repo)
+    open(os.path.join(wdir, "Cargo.toml"), "w").write(toml)
+    shutil.copy(os.path.join(src, "src", "lib.rs"), os.path.join(wdir, "src", "lib.rs"))
+    shutil.copy(os.path.join(src, ".cargo", "config.toml"), os.path.join(wdir, ".cargo", "config.toml"))
+    shutil.copy(os.path.join(repo, "Cargo.lock"), os.path.join(wdir, "Cargo.lock"))
+    env = dict(os.environ, CARGO_TARGET_DIR=os.path.join(CACHE, "target-wit"), CARGO_NET_OFFLINE="true")
+    env.pop("RUSTC_WORKSPACE_WRAPPER", None)
+    with open(os.path.join(CACHE, "lock-wit"), "w") as lk:
+        fcntl.flock(lk, fcntl.LOCK_EX)
+        p = subprocess.run(["cargo", "+nightly", "test", "--doc", "--offline"], cwd=wdir, env=env, capture_output=True, text=True)
+    res = {}
+    for m in re.finditer(r"^test src/lib\.rs - (\w+) \(line \d+\)( - compile fail)? \.\.\. (\w+)", p.stdout, re.M):
+        res.setdefault(m.group(1), {})["fail" if m.group(2) else "twin"] = m.group(3)
+    for w in want:
+        r = res.get(w, {})
+        rep.check(r.get("fail") == "ok", "%s-W" % rep.prop, "witnesses::" + w, "compile-fail", "closed-world witness %s no longer fails to compile with its error code: the table rules of %s are not closed (%s)" % (w, rep.prop, (p.stderr or p.stdout)[-400:] if not r else r),
+                  detail={"witness": w})
+        rep.check(r.get("twin") == "ok", "%s-W" % rep.prop, "witnesses::" + w, "twin-compiles", "the compiling twin of witness %s does not build: the witness fails for the wrong reason (%s)" % (w, (p.stderr or p.stdout)[-400:] if not r else r),
+                  detail={"witness": w})
 
 
 def load_known():
@@ -275,6 +332,7 @@ def finish(rep, checker_cmd):
             "exhaustive_rules": sorted(rep.exhaustive),
             "known_findings_suppressed": len(rep.violations) - len(real),
             "notes": rep.notes,
+            "cfg_matrix": rep.matrix_runs,
         },
         "assumptions": rep.assumptions,
         "wall_s": round(time.time() - rep.t0, 2),
